@@ -381,7 +381,8 @@ inductive Fmt (α : Type) where
   | bad : ErrT → Fmt α
   | ise : Fmt α
   | nilErr : Fmt α   -- `WrapError(typ, nil, …)`: a nil `*Error` inside a non-nil `error`; the caller's
-                     -- `errors.As` succeeds with a nil pointer and `acmeError.Status` panics
+                     -- `errors.As` succeeds with a nil pointer and `acmeError.Status` panics.  Since fix
+                     -- b9777f2 no format function produces it (theorem `device_attest_total`).
 
 def x5cCheck (emptyErr : ErrT) (x : X5c) : Option (Fmt Unit) :=
   if !x.present then some (.bad .badAttestationStatement)
@@ -422,14 +423,14 @@ def doStep (ch : Ch) (f : StepFacts) : Fmt Str :=
     else match ch.thumb with
       | none => .ise
       | some th =>
-        if f.key = .ecOther then .nilErr      -- WrapDetailedError(…, err = nil, "unsupported elliptic curve")
+        if f.key = .ecOther then .bad .badAttestationStatement    -- NewDetailedError "unsupported elliptic curve" (fix b9777f2)
         else if f.key = .unsupported then .bad .badAttestationStatement
         else if !f.verifies (keyAuth ch.token th) then .bad .badAttestationStatement
         else if !f.fpOk then .ise
         else match f.serial with
           | .absent => .data []
           | .malformed => .bad .badAttestationStatement
-          | .trailing => .nilErr             -- WrapError(…, err = nil, "error parsing serial number")
+          | .trailing => .bad .badAttestationStatement   -- NewError "…: trailing data" (fix b9777f2)
           | .value d => .data d
 
 structure AppleFacts where
